@@ -100,7 +100,7 @@ def gen_history_case(rng, ctx, big=0.1, n_ev=(5, 50), saveload=0.06, zero=0.05, 
         for e in events:
             ev2.append(e)
             while rng.random() < 0.45:
-                i = e[1] if e[0] in ("merge", "saveload", "copy", "tmpmerge") else e[0]
+                i = e[1] if e[0] in ("merge", "saveload", "copy", "tmpmerge", "selfmerge") else e[0]
                 t = pick(rng, [None, None, 0, 1, int(rng.integers(2, 30)), CAP])
                 ev2.append(["q", i, pick(rng, [1, 2, 3, 10**9]), t])
         events = ev2
@@ -179,6 +179,13 @@ class Run:
                 if self.on_query:
                     self.on_query(self, ev[1], ev)
                 continue
+            elif ev[0] == "selfmerge":
+                i = ev[1]
+                for _ in range(ev[2]):
+                    mon.api(self.real[i].merge, self.real[i])
+                self.ghost[i] = Counter({k: v * 2 ** ev[2] for k, v in self.ghost[i].items()})
+                mon.count("self_merge_runs")
+                t = i
             elif ev[0] == "copy":
                 i = ev[1]
                 if not hasattr(self.real[i], "shm"):
